@@ -58,6 +58,7 @@ MINI, MAXI = 0, 1
 DIRNAME = {MINI: "minimize", MAXI: "maximize"}
 
 OBLIGATIONS = {
+    "simplified_edited_simplified_again": "a track was simplified with a bounding-rectangle criterion, stretched in place, and simplified again",
     "stop_reward_matrix_checked": "the reward matrix findStopsGlobal handed to optimalPartition was compared with its documented criterion",
     "stop_on_a_millimetre_cluster": "findStopsGlobal was run on a track at a millimetre step with a piece that qualifies as a stop",
     "direction_matters": "a matrix whose minimum and maximum over break lists differ, in both directions",
@@ -562,8 +563,56 @@ def check_caller(variant, caller, pts, ctx, table=None):
     return nt
 
 
+MBR_MODES = {"largest-deviation": 4, "elongation-ratio": 5, "preclude-large-deviation": 6}
+
+
+def check_mbr_past(variant, pts, mode_name, ctx):
+    """The bounding-rectangle criteria of simplify(): a track that was simplified once, then stretched IN PLACE (every
+    coordinate doubled through the setters), then simplified again must hand optimalPartition the cost matrix that a freshly
+    built track with the same (stretched) content hands it.  The criterion itself is not modelled: the fresh track is the
+    reference."""
+    pts = [tuple(p) for p in pts]
+    case = {"op": "mbrpast", "variant": variant, "pts": [list(p) for p in pts], "mode": mode_name}
+    mode = MBR_MODES[mode_name]
+    s = alpha.scale(variant)
+    tol = 0.5 * s
+    T = make_track(variant, pts)
+    (st0, _), _c = drive(SIMP.simplify, T, tol, mode, False)
+    if st0 != "ok":
+        ctx.undef()                         # (these criteria divide by zero on some aligned tracks: outside what C12 states)
+        ctx.case(False)
+        return
+    for o in T:
+        o.position.setX(2.0 * o.position.getX())
+        o.position.setY(2.0 * o.position.getY())
+    F = make_track(variant, pts)
+    for o in F:
+        o.position.setX(2.0 * o.position.getX())
+        o.position.setY(2.0 * o.position.getY())
+    (st1, r1), calls1 = drive(SIMP.simplify, T, tol, mode, False)
+    (st2, r2), calls2 = drive(SIMP.simplify, F, tol, mode, False)
+    ctx.case(True)
+    ctx.oblige("simplified_edited_simplified_again")
+    if st2 != "ok" or len(calls2) != 1:
+        ctx.undef()
+        return
+    if st1 != "ok" or len(calls1) != 1:
+        ctx.violation("simplify-bounding-rectangle/%s/fails-only-on-a-track-simplified-before" % mode_name, case, r1 if st1 != "ok" else len(calls1))
+        return
+    M1, M2 = calls1[0][0].tolist(), calls2[0][0].tolist()
+    bad = [(a, b) for a in range(len(M2)) for b in range(len(M2)) if abs(M1[a][b] - M2[a][b]) > 1e-9 * max(1.0, abs(M2[a][b]))] \
+        if len(M1) == len(M2) else [(-1, -1)]
+    if bad:
+        ctx.violation("simplify-bounding-rectangle/%s/cost-matrix-depends-on-an-earlier-simplification" % mode_name, case,
+                      {"cell": list(bad[0]), "track_simplified_before": M1, "fresh_track_same_content": M2})
+        return
+    ctx.outcome(("mbrpast", mode_name, len(pts)))
+
+
 # ---------------------------------------------------------------------------
 def replay(case, ctx):
+    if case["op"] == "mbrpast":
+        return check_mbr_past(case["variant"], case["pts"], case["mode"], ctx)
     if case["op"] == "partition":
         check_partition(case["variant"], case["n"], case["upper"], case["dir"], ctx)
     else:
@@ -599,7 +648,7 @@ def plan(tier, variant):
         total = (w * h) ** fixes
         for lo in range(0, total, TRACK_CHUNK[tier]):
             sh.append({"kind": "tracks", "variant": variant, "fixes": fixes, "lattice": lat, "lo": lo,
-                       "hi": min(total, lo + TRACK_CHUNK[tier])})
+                       "hi": min(total, lo + TRACK_CHUNK[tier]), "tier": tier})
     sh.sort(key=lambda s: (s["lo"] != 0, ))         # simplest (first chunk of every space) first; stable
     return sh
 
@@ -641,5 +690,8 @@ def run_shard(shard, ctx):
             for caller in callers:
                 nt = check_caller(v, caller, pts, ctx)
                 ctx.case(nt)
+            if len(set(pts)) == len(pts) and (shard.get("tier") == "thorough" or idx % 4 == 0):
+                for mode_name in MBR_MODES:
+                    check_mbr_past(v, pts, mode_name, ctx)
             if idx == shard["lo"] + 5:
                 ctx.sample({"track": [list(p) for p in pts], "callers": callers})
